@@ -253,7 +253,8 @@ class Vocab:
             w = "[" + r.choice(["name", "ATTR_1", "size"]) + "]"
             return w, [["B", w]]
         if kind == "expr":
-            w = r.choice(["([pop] > 100)", '("[name]" = "x")', "([a] + 2 * [b])"])
+            w = r.choice(["([pop] > 100)", '("[name]" = "x")', "([a] + 2 * [b])", "([code] = '1)')", "([street] = 'Main St (north')",
+                          "(([a] > 1) AND ([b] < 2))", "('(' + [name])"])
             return w, [["E", w]]
         if kind == "regex":
             w = r.choice(["/^road/", "/a|b/", "/^road/i"])
